@@ -1117,4 +1117,51 @@ C16_Payout == [][
     /\ \A c2 \in Cons(p) : (c2 # c) => p'.cons[c2].credit = p.cons[c2].credit
   ]_vars
 
+
+(* ======================================================================= *)
+(* C07  equivocation evidence punishes exactly the signer, only when valid  *)
+(* ======================================================================= *)
+
+\* the abstract evidence record (DESIGN C07): cryptography is reduced to booleans the harness made true or false
+EvValid(s, a) ==
+  /\ a.c \in Cons(s) /\ s.cons[a.c].client # ""        \* a consumer with a recorded light client (launched or stopped)
+  /\ ~a.old /\ a.hdrKey = a.key /\ a.chainOk
+  /\ a.sameH /\ a.sameR /\ a.sameT /\ a.sameAddr /\ a.blockDiff /\ a.sigA /\ a.sigB
+EvTarget(s, a) == IF a.c \in Cons(s) THEN Resolve(s, a.c, a.key) ELSE "nobody"
+Punishable(s, v) == v \in DOMAIN s.vals /\ s.vals[v].st # "unbonded" /\ ~s.vals[v].tomb
+
+C07_Verdict == [][
+  (PStep /\ Txn(Ev, "DoubleVoting")) =>
+    (OkTx(Ev) <=> (EvValid(p, Ev.args) /\ Punishable(p, EvTarget(p, Ev.args))))
+  ]_vars
+
+C07_OnlySigner == [][
+  (PStep /\ Txn(Ev, "DoubleVoting") /\ OkTx(Ev)) =>
+    LET a == Ev.args  tgt == EvTarget(p, a)  ds == p.cons[a.c].infr.v.ds
+        x == p.vals[tgt]  y == p'.vals[tgt]
+        burned == (x.tok - y.tok) + (x.ubd - y.ubd) IN
+    /\ y.jailed /\ y.ju = (IF p'.t + ds.jail > 2000000000 THEN y.ju ELSE p'.t + ds.jail)
+    /\ y.tomb = (ds.tomb \/ x.tomb)
+    \* slashed with the consumer's double-sign fraction, counting stake still unbonding or redelegating
+    /\ burned >= 0
+    /\ (ds.fracBp = 0) => burned = 0
+    \* (32-bit arithmetic: amounts are compared in units of 10^4 base tokens times basis points)
+    /\ (ds.fracBp > 0 /\ x.lp > 0) => (burned >= x.lp * 100 * ds.fracBp - 2)
+    /\ burned <= (x.lp * 100 + (x.ubd \div 10000) + 101) * ds.fracBp + 2
+    \* nobody else is jailed, tombstoned or un-bonded; without redelegations nobody else loses tokens
+    /\ \A v \in DOMAIN p.vals : (v # tgt) =>
+         /\ JailView(p'.vals[v]) = JailView(p.vals[v])
+         /\ (x.ubd = 0) => p'.vals[v].tok = p.vals[v].tok
+    /\ p'.cons = p.cons
+  ]_vars
+
+C07_RejectedUnchanged == [][
+  (PStep /\ Txn(Ev, "DoubleVoting") /\ ~OkTx(Ev)) => (p'.vals = p.vals /\ p'.dig.all = p.dig.all /\ p'.dig.staking = p.dig.staking)
+  ]_vars
+
+\* tombstoning is permanent and jailing by equivocation happens only through evidence
+C07_TombstoneSticky == [][
+  PStep => \A v \in DOMAIN p.vals \cap DOMAIN p'.vals : p.vals[v].tomb => p'.vals[v].tomb
+  ]_vars
+
 =============================================================================
